@@ -970,3 +970,109 @@ silent("c01-silent-template-spelling", ["C01", "C17"], PR,
        "            if self.__class__ is not other.__class__:\n                return False\n",
        "            if self is other:\n                return True\n"
        "            if self.__class__ != other.__class__:\n                return False\n")
+
+# ---------------------------------------------------------------------------
+# C05
+# ---------------------------------------------------------------------------
+OPF = "pymbolic/mapper/optimize.py"
+EVF = "pymbolic/mapper/evaluator.py"
+
+fire("c05-key-drops-type", ["C05"], MI,
+     "        return (type(expr), expr, args, immutabledict(kwargs))",
+     "        return (expr, args, immutabledict(kwargs))",
+     "T/get_cache_key/covers-call")
+fire("c05-key-drops-args", ["C05"], MI,
+     "        return (type(expr), expr, args, immutabledict(kwargs))",
+     "        return (type(expr), expr, immutabledict(kwargs))",
+     "T/get_cache_key/covers-call")
+fire("c05-key-kwargs-ordered", ["C05"], MI,
+     "        return (type(expr), expr, args, immutabledict(kwargs))",
+     "        return (type(expr), expr, args, tuple(kwargs.items()))",
+     "T/get_cache_key/kwargs-order-insensitive")
+fire("c05-store-missing-on-fallback", ["C05"], MI,
+     "        result = self.rec_fallback(expr, *args, **kwargs)\n"
+     "        self._cache[cache_key] = result\n        return result",
+     "        result = self.rec_fallback(expr, *args, **kwargs)\n        return result",
+     "P/CachedMapper.__call__/miss-stores-result")
+fire("c05-store-under-other-key", ["C05"], MI,
+     "                result = method(expr, *args, **kwargs)\n"
+     "                self._cache[cache_key] = result\n                return result",
+     "                result = method(expr, *args, **kwargs)\n"
+     "                self._cache[expr] = result\n                return result",
+     "P/CachedMapper.__call__/miss-stores-result")
+fire("c05-lookup-key-without-args", ["C05"], MI,
+     "                (cache_key := self.get_cache_key(expr, *args, **kwargs)),",
+     "                (cache_key := self.get_cache_key(expr)),",
+     "P/CachedMapper.__call__/key-from-all-inputs")
+fire("c05-cse-key-drops-args", ["C05"], MI,
+     "        key = (expr, *args)\n", "        key = (expr,)\n", "T/cse-mixin/key")
+fire("c05-cse-miss-not-stored", ["C05"], MI,
+     "            result = self.map_common_subexpression_uncached(expr, *args)\n"
+     "            ccd[key] = result\n            return result",
+     "            result = self.map_common_subexpression_uncached(expr, *args)\n"
+     "            return result",
+     "P/cse-mixin/miss")
+fire("c05-cached-variant-overrides", ["C05"], MI,
+     "class CachedIdentityMapper(CachedMapper, IdentityMapper):\n    pass",
+     "class CachedIdentityMapper(CachedMapper, IdentityMapper):\n"
+     "    def map_variable(self, expr, *args, **kwargs):\n        return expr",
+     "S/cached-variant/CachedIdentityMapper")
+fire("c05-cached-variant-mro", ["C05"], MI,
+     "class CachedWalkMapper(CachedMapper, WalkMapper):",
+     "class CachedWalkMapper(WalkMapper):",
+     "S/cached-variant/CachedWalkMapper")
+fire("c05-handler-hidden-state", ["C05"], MI,
+     "    def map_variable(self, expr, *args, **kwargs):\n"
+     "        # leaf -- no need to rebuild\n        return expr",
+     "    def map_variable(self, expr, *args, **kwargs):\n"
+     "        # leaf -- no need to rebuild\n        self.last_variable = expr\n        return expr",
+     "O/purity/")
+fire("c05-float-sibling-drift", ["C05"], EVF,
+     "class CachedFloatEvaluationMapper(CachedEvaluationMapper):\n"
+     "    def map_constant(self, expr):\n        return float(expr)",
+     "class CachedFloatEvaluationMapper(CachedEvaluationMapper):\n"
+     "    def map_constant(self, expr):\n        return expr",
+     "S/cached-variant/CachedFloatEvaluationMapper/map_constant")
+fire("c05-revert-inline-cache-guard", ["C05"], OPF,
+     "    if inline_cache and not (drop_args and drop_kwargs):\n",
+     "    if False:\n",
+     "T/optimizer/inlined-key/covers-remaining-args")
+fire("c05-revert-inline-rec-guard", ["C05"], OPF,
+     "        if inline_rec and not inline_cache and issubclass(cls, CachedMapper):\n",
+     "        if False:\n",
+     "T/optimizer/inline_rec/keeps-cache")
+fire("c05-varargs-removed-always", ["C05"], OPF,
+     "                          if not self.drop_args or not isinstance(arg, ast.Starred)],",
+     "                          if not isinstance(arg, ast.Starred)],",
+     "T/optimizer/_VarArgsRemover/*args")
+fire("c05-kwargs-flag-crossed", ["C05"], OPF,
+     "                          if not self.drop_kwargs or kw.arg is not None])",
+     "                          if not self.drop_args or kw.arg is not None])",
+     "T/optimizer/_VarArgsRemover/**kwargs")
+fire("c05-signature-flag-crossed", ["C05"], OPF,
+     "                        kwarg=None if drop_kwargs else mdef.args.kwarg))",
+     "                        kwarg=None if drop_args else mdef.args.kwarg))",
+     "T/optimizer/signature-matches-call-sites")
+fire("c05-inlined-key-without-type", ["C05"], OPF,
+     "                cache_key_expr = ast.Tuple([expr_type, expr], ctx=Load())",
+     "                cache_key_expr = ast.Tuple([expr], ctx=Load())",
+     "T/optimizer/inlined-key/type-and-expr")
+silent("c05-silent-hit-test-inverted", ["C05", "C04"], MI,
+       "        if result is not _NOT_IN_CACHE:\n            return result\n\n"
+       "        method_name = getattr(expr, \"mapper_method\", None)\n"
+       "        if method_name is not None:\n"
+       "            method = getattr(self, method_name, None)\n"
+       "            if method is not None:\n"
+       "                result = method(expr, *args, **kwargs)\n"
+       "                self._cache[cache_key] = result\n                return result\n\n"
+       "        result = self.rec_fallback(expr, *args, **kwargs)\n"
+       "        self._cache[cache_key] = result\n        return result",
+       "        if result is _NOT_IN_CACHE:\n"
+       "            method_name = getattr(expr, \"mapper_method\", None)\n"
+       "            if method_name is not None:\n"
+       "                method = getattr(self, method_name, None)\n"
+       "                if method is not None:\n"
+       "                    result = method(expr, *args, **kwargs)\n"
+       "                    self._cache[cache_key] = result\n                    return result\n\n"
+       "            result = self.rec_fallback(expr, *args, **kwargs)\n"
+       "            self._cache[cache_key] = result\n        return result")
